@@ -96,86 +96,8 @@ def gen_task(task):
                 "trace": traceback.format_exc()[-2500:]}
 
 
-class SmtOb:
-    """obligation given as SMT-LIB text (picklable)"""
-    __slots__ = ("d",)
-
-    def __init__(self, d):
-        self.d = d
-
-
 def solve_all(obs, timeout_s, both, jobs, seed):
-    """obs: list of dicts with smt2/strs.  Returns list of backend.Result."""
-    results = [backend.Result() for _ in obs]
-    pending = []
-    for i, d in enumerate(obs):
-        if d["trivial"]:
-            results[i].status, results[i].solver = "unsat", "simplifier"
-            continue
-        if not d["strs"] and not both:
-            s = z3.Solver()
-            s.set("timeout", 3000)
-            try:
-                s.from_string(d["smt2"])
-                t0 = time.time()
-                r = s.check()
-                dt = time.time() - t0
-            except Exception:
-                r, dt = z3.unknown, 0.0
-            results[i].log.append(("z3-inproc", str(r), round(dt, 4)))
-            if r == z3.unsat:
-                results[i].status, results[i].solver, results[i].time = "unsat", "z3", dt
-                continue
-        pending.append(i)
-
-    def first(i):
-        return "cvc5" if obs[i]["strs"] else "z3"
-
-    def other(s):
-        return "z3" if s == "cvc5" else "cvc5"
-    tasks = []
-    for i in pending:
-        tasks.append((i, obs[i]["smt2"], first(i), timeout_s * 1000, False, seed))
-        if both:
-            tasks.append((i, obs[i]["smt2"], other(first(i)), timeout_s * 1000, False, seed))
-    verdicts = {}
-    for idx, solver, status, dt, model in backend.run_tasks(tasks, jobs):
-        results[idx].log.append((solver, status, round(dt, 3)))
-        verdicts.setdefault(idx, {})[solver] = (status, dt)
-    retry = []
-    for idx in pending:
-        v = verdicts.get(idx, {})
-        st = {s_: x[0] for s_, x in v.items()}
-        if "sat" in st.values() and "unsat" in st.values():
-            results[idx].status = "disagree"
-        elif "unsat" in st.values():
-            sv = [s_ for s_ in v if v[s_][0] == "unsat"][0]
-            results[idx].status, results[idx].solver, results[idx].time = "unsat", sv, v[sv][1]
-        elif "sat" in st.values():
-            sv = [s_ for s_ in v if v[s_][0] == "sat"][0]
-            results[idx].status, results[idx].solver, results[idx].time = "sat", sv, v[sv][1]
-        elif not both:
-            retry.append(idx)
-    tasks2 = [(i, obs[i]["smt2"], other(first(i)), timeout_s * 1000, False, seed) for i in retry]
-    for idx, solver, status, dt, model in backend.run_tasks(tasks2, jobs):
-        results[idx].log.append((solver, status, round(dt, 3)))
-        if status in ("unsat", "sat"):
-            results[idx].status, results[idx].solver, results[idx].time = status, solver, dt
-    need = [i for i in pending if results[i].status in ("sat", "unknown")]
-    mt = min(timeout_s, 15) * 1000
-    tasks3 = []
-    for i in need:
-        tasks3.append((i, obs[i]["smt2"], "z3", mt, True, seed))
-        tasks3.append((i, obs[i]["smt2"], "cvc5", mt, True, seed))
-    for idx, solver, status, dt, model in backend.run_tasks(tasks3, jobs):
-        results[idx].log.append((solver + "-model", status, round(dt, 3)))
-        if status == "unsat" and results[idx].status == "unknown":
-            results[idx].status, results[idx].solver, results[idx].time = "unsat", solver + "(fmf)", dt
-        if status == "sat" and model is not None and results[idx].model is None and results[idx].status != "unsat":
-            results[idx].model = model
-            results[idx].status = "sat"
-            results[idx].solver = results[idx].solver or solver
-    return results
+    return backend.solve_smt(obs, timeout_s, both, jobs, seed)
 
 
 def check_covers(covers, jobs, seed):
@@ -244,6 +166,11 @@ def main(argv=None):
 
     from pyvc import report
     rep = report.Report(args.prop, tier, seed, entry)
+    dbg = os.environ.get("VERIF_DEBUG")
+
+    def lap(what):
+        if dbg:
+            print("[%.1fs] %s" % (time.time() - t_start, what), file=sys.stderr)
 
     # ---- 0. conformance of builtin / dependency models (guard 5.4)
     from pyvc import conformance
@@ -252,6 +179,7 @@ def main(argv=None):
     for c in conf["failures"]:
         rep.fault("model conformance failed: %s" % c)
 
+    lap("conformance")
     # ---- 1. static obligations
     for name in entry.get("static", []):
         mod, fn = name.rsplit(".", 1)
@@ -275,8 +203,12 @@ def main(argv=None):
             if tier == "quick" and spec.opts.get("thorough_only"):
                 continue
             cfgs = _configs_for(spec)
-            ncfg = len(cfgs) if not args.configs else min(len(cfgs), int(args.configs))
-            for ci in range(ncfg):
+            idxs = list(range(len(cfgs)))
+            if cfgs is fixtures.PROVIDER_CONFIGS and tier == "quick":
+                idxs = list(fixtures.QUICK_PROVIDER_CONFIGS)
+            if args.configs:
+                idxs = idxs[:int(args.configs)]
+            for ci in idxs:
                 tasks.append((path, spec.name, ci))
     gens = []
     if tasks:
@@ -284,6 +216,7 @@ def main(argv=None):
         with ctx.Pool(min(args.jobs, len(tasks))) as pool:
             for g in pool.imap_unordered(gen_task, tasks, chunksize=1):
                 gens.append(g)
+    lap("generation (%d tasks)" % len(tasks))
     obs, covers = [], {}
     for g in gens:
         if not g["ok"]:
@@ -294,7 +227,9 @@ def main(argv=None):
         covers.update(g["covers"])
     timeout_s = entry.get("timeout_s", {}).get(tier, 20 if tier == "quick" else 120)
     results = solve_all(obs, timeout_s, tier == "thorough" and entry.get("both_solvers", True), args.jobs, seed) if obs else []
+    lap("solving (%d obligations)" % len(obs))
     cov = check_covers(covers, args.jobs, seed) if covers else {}
+    lap("covers (%d)" % len(covers))
     rep.set_obligations(obs, results, cov)
 
     # ---- 3. replay of counterexamples on the real code
